@@ -20,7 +20,8 @@ SPEC = dict(
           "Singleton::instance (before the lock, between construction and publication) and in the ManagedThread "
           "constructor (between thread start and flag initialisation). ThreadSanitizer reports are counted when at "
           "least one access stack has a Celma frame and the other one is inside Celma or the harness "
-          "(key tsan|<innermost Celma function>|<...>). distinct_nontrivial = distinct (threads, level, payload, "
+          "(keys tsan|global:<variable>, tsan|heap:<allocating Celma function>, else tsan|<funcA>|<funcB> of the innermost "
+          "Celma frames, see lib/tsan.py). distinct_nontrivial = distinct (threads, level, payload, "
           "winner thread, number of threads on the slow path, number of calls overlapping the construction window) "
           "resp. (function kind, level, hook delay class, observed order of 'function entered' and 'flag "
           "initialisation point') signatures; every round/lifetime is non-trivial (it races for the first access "
@@ -34,18 +35,18 @@ SPEC = dict(
         dict(name="singleton", flavour="tsan", min_celma_stacks=1, eval_stat="singleton_rounds",
              cases={"quick": 384, "thorough": 16800}, chunk={"quick": 24, "thorough": 240},
              repeat=1, parallel={"quick": 4, "thorough": 6}, args={"batch": BATCH},
-             require_stats=["singleton_rounds_T2", "singleton_rounds_T16"], timeout=1800),
+             require_stats=["singleton_rounds_T2", "singleton_rounds_T16"], timeout={"quick": 150, "thorough": 900}),
         dict(name="mthread", flavour="tsan", min_celma_stacks=1, eval_stat="mthread_lifetimes",
              cases={"quick": 864, "thorough": 40500}, chunk={"quick": 54, "thorough": 810},
              repeat=1, parallel={"quick": 8, "thorough": 12}, args={"batch": BATCH},
              require_stats=["mthread_lifetimes_blocking", "mthread_lifetimes_empty", "mthread_lifetimes_short",
-                            "mthread_active_samples"], timeout=1800),
+                            "mthread_active_samples"], timeout={"quick": 150, "thorough": 900}),
         dict(name="singleton-plain", hmode="singleton", flavour="plain", eval_stat="singleton_rounds",
              cases={"quick": 384, "thorough": 16800}, workers={"quick": 4, "thorough": 6}, args={"batch": BATCH},
-             timeout=1800),
+             timeout={"quick": 150, "thorough": 900}),
         dict(name="mthread-plain", hmode="mthread", flavour="plain", eval_stat="mthread_lifetimes",
              cases={"quick": 864, "thorough": 40500}, workers={"quick": 8, "thorough": 12}, args={"batch": BATCH},
-             timeout=1800),
+             timeout={"quick": 150, "thorough": 900}),
     ],
 )
 
